@@ -63,3 +63,64 @@ impl<'a> Toks<'a> {
         unhex(self.next())
     }
 }
+
+/// deterministic pseudo-random byte shared by harness, judge and generators
+pub fn pbyte(seed: u64, i: u64) -> u8 {
+    (((seed * 131 + i * 2654435 + (i / 256) * 977) % 1000003) % 256) as u8
+}
+
+pub fn payload_from_spec(spec: &str) -> Vec<u8> {
+    let (h, rest) = spec.split_at(1);
+    match h {
+        "h" => unhex(rest),
+        "r" => {
+            let mut it = rest.split('.');
+            let len: u64 = it.next().unwrap().parse().unwrap();
+            let seed: u64 = it.next().unwrap().parse().unwrap();
+            (0..len).map(|i| pbyte(seed, i)).collect()
+        }
+        _ => panic!("HARNESS-BAD-PAYLOAD"),
+    }
+}
+
+pub fn fnv32(data: &[u8]) -> u32 {
+    let mut h: u32 = 2166136261;
+    for b in data {
+        h = (h ^ (*b as u32)).wrapping_mul(16777619);
+    }
+    h
+}
+
+/// split a stream into pieces according to a partition spec: w | b | k<n> | r<seed>
+pub fn partition(spec: &str, data: &[u8]) -> Vec<Vec<u8>> {
+    let (h, rest) = spec.split_at(1);
+    let mut out = Vec::new();
+    match h {
+        "w" => out.push(data.to_vec()),
+        "b" => {
+            for b in data {
+                out.push(vec![*b]);
+            }
+        }
+        "k" => {
+            let n: usize = rest.parse().unwrap();
+            for c in data.chunks(n.max(1)) {
+                out.push(c.to_vec());
+            }
+        }
+        "r" => {
+            let seed: u64 = rest.parse().unwrap();
+            let mut pos = 0usize;
+            let mut i = 0u64;
+            while pos < data.len() {
+                let sz = 1 + ((pbyte(seed, i) as usize) * 37 + pbyte(seed + 1, i) as usize) % 700;
+                let end = (pos + sz).min(data.len());
+                out.push(data[pos..end].to_vec());
+                pos = end;
+                i += 1;
+            }
+        }
+        _ => panic!("HARNESS-BAD-PARTITION"),
+    }
+    out
+}
